@@ -24,16 +24,13 @@ impl<B> FvmRuntime<B> {
     #[verifier::external_body]
     pub fn resolve_builtin_actor_type(&self, code_id: &Cid) -> (r: Option<Type>) ensures r == fvm_type_of(*code_id) { unimplemented!() }
 }
-/// `addresses.into_iter().any(|a| *a == caller_addr)`
-#[verifier::external_body]
-pub fn vx_any_addr(addresses: &Vec<Address>, x: Address) -> (r: bool) ensures r == addresses@.contains(x) { unimplemented!() }
-/// `types.into_iter().any(|t| *t == typ)`
-#[verifier::external_body]
-pub fn vx_any_type(types: &Vec<Type>, x: Type) -> (r: bool) ensures r == types@.contains(x) { unimplemented!() }
 /// fvm_sdk::send::send — the syscall itself (what it does to the world is what prelude/rt.rs models; here only whether it is reached)
 #[verifier::external_body]
-pub fn fvm_send_send(to: &Address, method: MethodNum, params: Option<IpldBlock>, value: TokenAmount, gas_limit: Option<u64>, flags: SendFlags) -> (r: Result<Response, ErrorNumber>)
+pub fn fvm_send_send(to: &Address, method: MethodNum, params: Option<IpldBlock>, value: TokenAmount, gas_limit: Option<u64>, flags: SendFlags) -> (r: Result<Response, SendError>)
 { unimplemented!() }
+/// `SendError(ErrorNumber::IllegalOperation)` (prelude/rt.rs keeps SendError's payload as the raw error number)
+pub open spec fn illegal_operation_spec() -> u32 { 2 }
+pub fn vx_send_error_illegal_operation() -> (r: SendError) ensures r.0 == illegal_operation_spec() { SendError(2) }
 #[derive(Clone, Copy, PartialEq, Eq, Structural)]
 pub enum ErrorNumber { IllegalArgument, IllegalOperation, LimitExceeded, AssertionFailed, InsufficientFunds, NotFound, InvalidHandle, IllegalCid, IllegalCodec, Serialization, Forbidden, BufferTooSmall, ReadOnly }
 /// fvm_sdk::actor::create_actor / fvm_sdk::sself::self_destruct
